@@ -320,7 +320,7 @@ def histories(quick):
     triples = list(itertools.product(range(len(MUTATIONS)), repeat=3))
     n = 0
     for si, s in enumerate(sk):
-        chosen = triples[si % 27::27] if quick else triples
+        chosen = triples[si % 9::9] if quick else triples
         for tr in chosen:
             n += 1
             events, mi, b = [], 0, 0
@@ -339,7 +339,7 @@ def histories(quick):
                                   'xtuml.meta.MetaClass.insert_attribute', 'xtuml.meta.MetaClass.delete_attribute'],
       shards=15, weight=1,
       bound='all arrangements of 2 inputs, 3 builds, 3 mutations on one loader (mutation only after a build; all shorter '
-            'histories are prefixes, clauses evaluated after every event) x mutation-kind triples over 9 kinds (quick: 27 of '
+            'histories are prefixes, clauses evaluated after every event) x mutation-kind triples over 9 kinds (quick: 81 of '
             'the 729 per arrangement, rotating so that all triples occur; thorough: all 729); mutated metamodel and the 9 '
             'input scenarios (C01 shapes split into two inputs: rows cut, schema late, class late, rows before schema) rotate')
 def histories_item(ctx):
